@@ -70,10 +70,14 @@ def RegsA (w lo pos : Nat) (f : Bool) : Regs → Prop
   | .lexer l => w ≤ l.lexemeStart ∧ l.lexemeStart ≤ pos + 1 ∧ (f = true → l.lexemeStart ≤ pos)
   | .scanner s => w ≤ pos ∧ (∀ p, s.tagStart = some p → w ≤ p ∧ lo ≤ p ∧ p ≤ pos) ∧ s.chSeqStart = none
 
+/-- a stale `ch_sequence_matching_start` can only be left behind by the "need more input" break of a
+sequence arm, i.e. in a state that has a sequence arm and whose enter actions have already run -/
+def seqResume (sd : StateDef) (c : Common) : Bool := hasSeqArm sd.arms && (sd.enter.isEmpty || c.entered)
+
 /-- between state functions -/
 def MInvB (t : Table) (L w lo : Nat) (m : M κ) : Prop :=
   lo ≤ m.c.nextPos ∧ m.c.nextPos ≤ L ∧
-  ∃ sd, t.state? m.c.state = some sd ∧ RegsB w lo m.c.nextPos (hasSeqArm sd.arms) m.r
+  ∃ sd, t.state? m.c.state = some sd ∧ RegsB w lo m.c.nextPos (seqResume sd m.c) m.r
 
 /-- inside an arm, after the consume -/
 def MInvA (W : κ → Nat) (L lo : Nat) (hasByte f : Bool) (m : M κ) : Prop :=
@@ -109,5 +113,29 @@ theorem Frame.trans {a b c : M κ} (h1 : Frame a b) (h2 : Frame b c) : Frame a c
 def ActPost (U : String → Prop) (W : κ → Nat) (L lo : Nat) (hasByte f' : Bool) (m : M κ)
     (r : M κ × Option Signal) : Prop :=
   Frame m r.1 ∧ MInvA W L lo hasByte f' r.1 ∧ ∀ sig, r.2 = some sig → ActSigOK U W L lo r.1 sig
+
+/-- register invariant right after the consume, before the sequence arms are tried: as `RegsA` with the
+flag set, except that `ch_sequence_matching_start` may still hold a stale value while sequence arms
+remain (`rem`) -/
+def RegsC (w lo pos : Nat) (rem : Bool) : Regs → Prop
+  | .lexer l => w ≤ l.lexemeStart ∧ l.lexemeStart ≤ pos
+  | .scanner s => w ≤ pos ∧ (∀ p, s.tagStart = some p → w ≤ p ∧ lo ≤ p ∧ p ≤ pos) ∧ (s.chSeqStart = none ∨ rem = true)
+
+/-- right after the consume; `n0` = `next_pos` before it, `ch` = the consumed byte -/
+def MInvC (W : κ → Nat) (L lo n0 : Nat) (ch : Option UInt8) (rem : Bool) (m : M κ) : Prop :=
+  1 ≤ m.c.nextPos ∧ lo ≤ m.c.nextPos - 1 ∧ n0 ≤ m.c.nextPos - 1 ∧ m.c.nextPos - 1 ≤ L ∧
+  (ch.isSome = true → m.c.nextPos - 1 < L) ∧ (ch = none → m.c.nextPos - 1 = L) ∧
+  RegsC (W m.x.sink) lo (m.c.nextPos - 1) rem m.r
+
+/-- progress of one state-function invocation that does not signal: the cursor advanced, or it
+stayed and the rank of the state went down -/
+def Prog (t : Table) (n0 : Nat) (st0 : StateId) (m : M κ) : Prop :=
+  n0 + 1 ≤ m.c.nextPos ∨ (n0 ≤ m.c.nextPos ∧ t.rank m.c.state < t.rank st0)
+
+/-- specification of one state-function invocation started at cursor `n0` in state `st0` -/
+def StepPost (t : Table) (W : κ → Nat) (L lo n0 : Nat) (st0 : StateId) (r : M κ × Option Signal) : Prop :=
+  match r.2 with
+  | none => MInvB t L (W r.1.x.sink) lo r.1 ∧ Prog t n0 st0 r.1
+  | some sig => SigOK U1 t W L lo r.1 sig
 
 end LolHtml.Model
